@@ -158,6 +158,7 @@ func (b *Box) storeOrForward(msg *IncMessage) {
 		b.lock.Unlock()
 
 		if !draining {
+			verifYield("recv:forward")
 			b.MessageHandler.HandleMessage(msg)
 		}
 		return
@@ -290,6 +291,8 @@ func (b *Box) Send(msgType uint8, topic []byte, msg []byte, to ...UniversalID) {
 		defer b.drain(string(topic))
 	}
 
+	verifYield("send:after-start")
+
 	b.ForwardSend(msgType, topic, msg, to...)
 }
 
@@ -297,6 +300,8 @@ func (b *Box) Send(msgType uint8, topic []byte, msg []byte, to ...UniversalID) {
 // since, until none is left; only then do messages of the topic go to the message handler directly again.
 func (b *Box) drain(topic string) {
 	for {
+		verifYield("drain:next")
+
 		b.lock.Lock()
 		queue := b.draining[topic]
 		if len(queue) == 0 {
@@ -307,6 +312,8 @@ func (b *Box) drain(topic string) {
 		msg := queue[0]
 		b.draining[topic] = queue[1:]
 		b.lock.Unlock()
+
+		verifYield("drain:handover")
 
 		b.MessageHandler.HandleMessage(msg)
 	}
